@@ -93,7 +93,8 @@ class GradCAM(WhiteBoxExplainer):
 
         for x_batch, y_batch in tf.data.Dataset.from_tensor_slices((inputs, targets)).batch(
                 batch_size):
-            batch_feature_maps, batch_gradients = GradCAM._gradient(self.model, x_batch, y_batch)
+            batch_feature_maps, batch_gradients = GradCAM._gradient(
+                self.model, x_batch, y_batch, self.inference_function)
             batch_weights = self._compute_weights(batch_gradients, batch_feature_maps)
             batch_grad_cams = GradCAM._apply_weights(batch_weights, batch_feature_maps)
 
@@ -115,8 +116,9 @@ class GradCAM(WhiteBoxExplainer):
     @tf.function
     def _gradient(model: tf.keras.Model,
                   inputs: tf.Tensor,
-                  targets: tf.Tensor) -> Tuple[tf.Tensor,
-                                              tf.Tensor]:
+                  targets: tf.Tensor,
+                  operator: Optional[OperatorSignature] = None) -> Tuple[tf.Tensor,
+                                                                       tf.Tensor]:
         """
         Compute the gradient with respect to the conv_layer.
 
@@ -133,6 +135,9 @@ class GradCAM(WhiteBoxExplainer):
             Tensor or Array. One-hot encoding of the model's output from which an explanation
             is desired. One encoding per input and only one output at a time.
             More information in the documentation (API Description).
+        operator
+            Function g to explain, applied to the predictions of the model.
+            If None, use the standard operator g(f, x, y) = f(x)[y].
 
         Returns
         -------
@@ -144,7 +149,10 @@ class GradCAM(WhiteBoxExplainer):
         with tf.GradientTape(watch_accessed_variables=False) as tape:
             tape.watch(inputs)
             feature_maps, predictions = model(inputs)
-            score = tf.reduce_sum(tf.multiply(predictions, targets), axis=-1)
+            if operator is None:
+                score = tf.reduce_sum(tf.multiply(predictions, targets), axis=-1)
+            else:
+                score = operator(lambda _: predictions, inputs, targets)
 
         feature_maps_gradients = tape.gradient(score, feature_maps)
 
